@@ -39,6 +39,8 @@ type World struct {
 
 	allFuncs map[*ssa.Function]bool
 	funcIdx  map[string]map[string]*ssa.Function // pkg path -> RelString -> fn
+	e1cache  *e1State
+	frameCache map[string]*frameResult
 }
 
 func repoDir() string {
